@@ -20,6 +20,8 @@
 (*   Accept{b}                        accept_writes(b)                       *)
 (*   RMap{r,off,len,st,seen}          read_map by reader r                   *)
 (*   RUnmap{r,c,seen}                 read_unmap(r,c); seen = region re-read just before *)
+(*   Hang{kind,wasleep,threads}       the deterministic scheduler found a deadlock / fair livelock *)
+(*   End / Sched{ids}                 end of an execution / schedule taken (not judged)            *)
 (*   Push / Pop                       save / restore the observation state   *)
 (*                                    (exploration harness walks a tree)     *)
 (***************************************************************************)
@@ -149,6 +151,11 @@ Step ==
                            /\ o' = DoRMap(Ev.r, Ev.off, Ev.len) /\ stk' = stk
        [] e = "RUnmap"  -> /\ Flag(RUnmapRules(Ev.r, Ev.c, Ev.seen))
                            /\ o' = DoRUnmap(Ev.r, Ev.c) /\ stk' = stk
+       [] e = "Hang"    -> /\ Flag(IF Ev.wasleep /\ ~o.acc THEN <<"HangWriterAsleepWhileRefusing">>
+                                    ELSE IF Ev.wasleep /\ AllDrained THEN <<"HangWriterAsleepWhileDrained">>
+                                    ELSE <<"HangOther">>)
+                           /\ o' = o /\ stk' = stk
+       [] e \in {"End", "Sched"} -> /\ NoFlag /\ o' = o /\ stk' = stk
        [] OTHER         -> /\ Flag(<<"UnknownEvent">>) /\ o' = o /\ stk' = stk
 
 Finish ==
